@@ -57,8 +57,9 @@ type kvElection struct {
 	ctx    context.Context
 	cancel context.CancelFunc
 
-	// termCancel cancels the context handed to the OnPromote callback of the
-	// current leadership term; it is invoked whenever the term ends.
+	// termCancel cancels the context of the current leadership term (its
+	// heartbeat and validation loops and the context handed to OnPromote);
+	// it is invoked whenever the term ends.
 	termCancel context.CancelFunc
 
 	onPromote func(ctx context.Context, token string)
@@ -416,16 +417,28 @@ func (e *kvElection) becomeLeader(token string, rev uint64) {
 		)...,
 	)
 
+	// Everything that belongs to this term (heartbeat and validation loops, the
+	// OnPromote callback) runs on a context that ends with the term: demotion
+	// for any reason cancels it, Stop cancels it through the parent context.
+	// A loop of an earlier term must not survive into a later one: it only
+	// looks at IsLeader() once per tick and would otherwise carry on as a
+	// second heartbeat loop when the instance is re-elected within a tick.
+	if e.termCancel != nil {
+		e.termCancel()
+	}
+	termCtx, termCancel := context.WithCancel(e.ctx)
+	e.termCancel = termCancel
+
 	e.wg.Add(1)
 	go func() {
 		defer e.wg.Done()
-		e.heartbeatLoop(e.ctx)
+		e.heartbeatLoop(termCtx)
 	}()
 
 	e.wg.Add(1)
 	go func() {
 		defer e.wg.Done()
-		e.validationLoop(e.ctx)
+		e.validationLoop(termCtx)
 	}()
 
 	if e.onPromote != nil {
@@ -434,10 +447,7 @@ func (e *kvElection) becomeLeader(token string, rev uint64) {
 				zap.String("token", token),
 			)...,
 		)
-		// The callback's context ends with the term (demotion for any reason,
-		// Stop), not only with the whole election.
-		promoteCtx, cancel := context.WithCancel(e.ctx)
-		e.termCancel = cancel
+		promoteCtx, cancel := context.WithCancel(termCtx)
 		onPromote := e.onPromote
 		e.wg.Add(1)
 		go func() {
